@@ -402,6 +402,57 @@ func main() {
 			o := mountObs(vos, &log, string(b))
 			fmt.Fprintf(w, "%s\t%s\n", sc.Text(), hex.EncodeToString([]byte(o)))
 		}
+	case "hist":
+		// one history per line: cwd0 SP keys SP ops (hex; op = C<hex> | U<hex>, ';' separated), replayed on ONE VirtualOS
+		sc := bufio.NewScanner(os.Stdin)
+		sc.Buffer(make([]byte, 1<<20), 1<<20)
+		unhex := func(h string) string { b, _ := hex.DecodeString(h); return string(b) }
+		for sc.Scan() {
+			f := strings.Split(sc.Text(), " ")
+			if len(f) != 3 {
+				fmt.Fprintln(w, "BADLINE")
+				continue
+			}
+			var keys []string
+			for _, k := range strings.Split(f[1], ",") {
+				keys = append(keys, unhex(k))
+			}
+			var log []string
+			vos := newVOS(unhex(f[0]), keys, &log)
+			var outs []string
+			for i, o := range strings.Split(f[2], ";") {
+				body := unhex(o[1:])
+				if o[0] == 'C' {
+					vos.Chdir(body)
+					continue
+				}
+				// rotate through the single-path methods so that every one of them is exercised in histories
+				log = log[:0]
+				switch i % 6 {
+				case 0:
+					vos.Stat(body)
+				case 1:
+					vos.ReadFile(body)
+				case 2:
+					vos.WriteFile(body, nil, 0o644)
+				case 3:
+					vos.Remove(body)
+				case 4:
+					vos.ReadDir(body)
+				case 5:
+					vos.MkdirAll(body, 0o755)
+				}
+				if len(log) == 1 {
+					parts := strings.SplitN(log[0], "\t", 3)
+					outs = append(outs, hex.EncodeToString([]byte(parts[0]))+":"+hex.EncodeToString([]byte(parts[2])))
+				} else if len(log) == 0 {
+					outs = append(outs, "NONE")
+				} else {
+					outs = append(outs, "MULTI")
+				}
+			}
+			fmt.Fprintln(w, strings.Join(outs, ";"))
+		}
 	case "localfs":
 		n, _ := strconv.Atoi(os.Args[2])
 		w.Flush()
